@@ -239,6 +239,111 @@ example :
     (remoteReconcile { o with lifecycle := .paused } ph w).2 = .ok ([], false) := by
   exact ⟨rfl, rfl⟩
 
+/-! ### (S1B) the phase object's identity in status.remotePhases, orphan deletion of a phase object -/
+
+/-- `addRemoteObjectSetPhase` lists the reference it is given … -/
+theorem addRemote_mem (refs : List (String × String)) (r : String × String) : r ∈ addRemote refs r := by
+  unfold addRemote
+  split
+  · rename_i h
+    obtain ⟨x, hx, hn⟩ := List.any_eq_true.mp h
+    exact List.mem_map.mpr ⟨x, hx, by simp [of_decide_eq_true hn]⟩
+  · simp
+
+/-- … and leaves NO other entry under the same name: a reference recorded earlier for a phase
+object of that name (an older uid) is replaced, never kept. -/
+theorem addRemote_no_stale (refs : List (String × String)) (r x : String × String)
+    (hx : x ∈ addRemote refs r) (hn : x.1 = r.1) : x = r := by
+  unfold addRemote at hx
+  split at hx
+  · obtain ⟨y, _, hy⟩ := List.mem_map.mp hx
+    by_cases hyn : y.1 = r.1
+    · simpa [hyn] using hy.symm
+    · simp only [hyn, ↓reduceIte] at hy
+      exact absurd (hy ▸ hn) hyn
+  · rename_i h
+    rcases List.mem_append.mp hx with h1 | h1
+    · exact absurd (List.any_eq_true.mpr ⟨x, h1, by simp [hn]⟩) h
+    · simpa using h1
+
+/-- with the phase object at hand the ObjectSet records it (name, current uid) and keeps no other
+uid under that name; a pause flip does not change the object's identity. -/
+theorem remoteContinue_reports (o : OSet) (n : String) (cur : OPhase) (w : World)
+    (hname : cur.name = n) (hget : w.phases n = some cur) :
+    ∃ p, (remoteContinue o n cur w).1.phases n = some p ∧ p.name = n ∧
+      (n, p.uid) ∈ (remoteContinue o n cur w).1.remoteRefs ∧
+      ∀ x ∈ (remoteContinue o n cur w).1.remoteRefs, x.1 = n → x.2 = p.uid := by
+  subst hname
+  have hmem := addRemote_mem w.remoteRefs (cur.name, cur.uid)
+  have hst : ∀ x ∈ addRemote w.remoteRefs (cur.name, cur.uid), x.1 = cur.name → x.2 = cur.uid := by
+    intro x hx hn
+    have := addRemote_no_stale w.remoteRefs (cur.name, cur.uid) x hx hn
+    simp [this]
+  simp only [remoteContinue, propagatePause]
+  split
+  · exact ⟨{ cur with paused := decide (o.lifecycle = .paused), gen := cur.gen + 1, rv := w.store.nextRV },
+      by simp [setPhase, freshRV, World.tick], rfl,
+      by simpa [setPhase, freshRV, World.tick] using hmem,
+      by simpa [setPhase, freshRV, World.tick] using hst⟩
+  · exact ⟨cur, by simpa using hget, rfl, by simpa using hmem, by simpa using hst⟩
+
+/-- **remote_reports_current_uid.** A pass of the ObjectSet over a delegated phase — whether it
+FINDS the phase object or (re-)CREATES it, e.g. after a third party deleted it — records the phase
+object that exists afterwards under its current uid and keeps no other uid for that name:
+`isControlledByPreviousRevision` of the next revision compares exactly these (name, uid) pairs with
+the controller reference of an object.  (`hwf`: a stored phase object carries the name it is stored
+under.) -/
+theorem remote_reports_current_uid (o : OSet) (ph : PhaseSpec) (w : World)
+    (hwf : ∀ cur, w.phases (phaseName o ph) = some cur → cur.name = phaseName o ph) :
+    ∃ p, (remoteReconcile o ph w).1.phases (phaseName o ph) = some p ∧ p.name = phaseName o ph ∧
+      (phaseName o ph, p.uid) ∈ (remoteReconcile o ph w).1.remoteRefs ∧
+      ∀ x ∈ (remoteReconcile o ph w).1.remoteRefs, x.1 = phaseName o ph → x.2 = p.uid := by
+  cases hget : w.phases (phaseName o ph) with
+  | none =>
+    simp only [remoteReconcile, hget]
+    exact remoteContinue_reports o _ _ _ (by simp [desiredPhase]) (by simp [setPhase])
+  | some cur =>
+    simp only [remoteReconcile, hget]
+    exact remoteContinue_reports o _ cur w (hwf cur hget) hget
+
+/-- **orphan_deleted_phase_touches_nothing.** A pass of the ObjectSetPhase controller on a phase
+object that is being deleted with orphan propagation (the API server put the "orphan" finalizer on
+it) issues no write on any managed object — nothing is deleted, nothing de-referenced, whatever the
+phase lists and whoever controls it; only the phase object's own finalizer / status are written. -/
+theorem orphan_deleted_phase_touches_nothing (cfg : Cfg) (setKind ns name : String) (s : Sys) (mem : OPhase)
+    (hget : s.w.phases name = some mem) (hdel : mem.deleting = true) (horph : mem.finOrphan = true) :
+    (reconcilePhaseCtl cfg setKind ns name s).1.w.events = s.w.events ∧
+    (reconcilePhaseCtl cfg setKind ns name s).1.w.store.objs = s.w.store.objs := by
+  have hlw : ∀ (w : World) (m : OPhase) (f : OPhase → OPhase),
+      (lockedPhaseWrite w m f).1.events = w.events ∧ (lockedPhaseWrite w m f).1.store.objs = w.store.objs := by
+    intro w m f; simp only [lockedPhaseWrite]; (repeat' split) <;> simp [setPhase, freshRV, World.tick]
+  have hus : ∀ (w : World) (m : OPhase),
+      (updatePhaseStatus w m).1.events = w.events ∧ (updatePhaseStatus w m).1.store.objs = w.store.objs := by
+    intro w m; simp only [updatePhaseStatus]; split <;> simp [hlw]
+  have hsf : ∀ (w : World) (m : OPhase) (b : Bool),
+      (setPhaseFinalizer w m b).1.events = w.events ∧ (setPhaseFinalizer w m b).1.store.objs = w.store.objs := by
+    intro w m b; simp only [setPhaseFinalizer]; (repeat' split) <;> simp [hlw]
+  have haps : ∀ (x : World × Except ApiErr OPhase) (r : Res), (afterPhaseStatus x r).1 = x.1 := by
+    intro x r; obtain ⟨w, e⟩ := x; cases e <;> rfl
+  have htr : (if mem.finCached then (if mem.finOrphan then (s.w, TRes.done) else teardownPhase cfg (phaseOwner mem setKind ns) mem.objs s.w) else (s.w, TRes.done)) = (s.w, TRes.done) := by
+    simp [horph]
+  simp only [reconcilePhaseCtl, hget, hdel, ↓reduceIte, htr]
+  cases hf : setPhaseFinalizer s.w mem false with
+  | mk w' r =>
+    have h1 := hsf s.w mem false
+    rw [hf] at h1
+    simp only at h1
+    cases r <;> simp [haps, hus, h1.1, h1.2]
+
+/-- Non-vacuity: a phase object re-created after a third party deleted it is reported under its new
+uid (`SetRemotePhases` folds the collected references into the recorded ones): the uid recorded before is gone. -/
+example :
+    let o : OSet := { (default : OSet) with kind := "ObjectSet", ns := "ns1", name := "os1", uid := "uid-1", gen := 1, revision := 1, remotePhases := [("os1-p1", "uid-2")] }
+    let ph : PhaseSpec := ⟨"p1", "default", []⟩
+    let w : World := { store := { objs := fun _ => none, nextUID := 5, nextRV := 9 }, writes := 0, env := [], events := [] }
+    (remoteReconcile o ph w).1.remoteRefs.foldl addRemote o.remotePhases = [("os1-p1", "uid-5")] := by
+  decide +kernel
+
 /- NOT PROVED (`eventual_equivalence_partial`): that a whole execution of ObjectSet controller +
 ObjectSetPhase controller under a fair schedule reaches the same end state as the in-process
 execution.  The sys correspondence stream explores it; see DESIGN.md §6 C15. -/
